@@ -156,17 +156,19 @@ def run(rep, tier, seed):
     cases += build_cases("c06a", oexps, obinds, oseqs, rng, per_session=50, comp={"cands": CANDS, "byword": True})
     # (c) copies / kills through named registers, twice in a row (append with the upper-case name)
     rcs = []
-    for i in range(12 if tier == "quick" else 120):
+    for i in range(24 if tier == "quick" else 200):
         cs = {"id": "c06reg-%d" % i, "inputrc": "set editing-mode vi\n", "w": 80, "h": 24, "prompt": "> ", "setups": [], "sessions": []}
         sess = []
         for _ in range(30):
-            b = rng.choice([x for x in bufs if x])
+            ml = [x for x in bufs if "\n" in x.strip("\n")]
+            b = rng.choice(ml) if rng.random() < 0.5 else rng.choice([x for x in bufs if x])
             cur = rng.randint(0, len(b) - 1)
             cs["setups"].append(setup(b, cur, "vi-command"))
             sess.append(SETUP_KEY)
             reg = rng.choice("abz")
+            op0 = rng.choice([b"Y", b"yy", b"yw", b"y$", b"yiw", b"yl", b"ye", b"y0"])
             for r in (reg, reg.upper(), rng.choice([reg, reg.upper(), "1"])):
-                op = rng.choice([b"Y", b"yy", b"yw", b"y$", b"yiw", b"yl", b"ye", b"y0"])
+                op = op0 if rng.random() < 0.6 else rng.choice([b"Y", b"yy", b"yw", b"y$", b"yiw", b"yl", b"ye", b"y0"])
                 sess.append(keys(b'"' + r.encode()))
                 sess.append(keys(op))
                 if rng.random() < 0.3:
